@@ -191,6 +191,27 @@ Section Gradient.
                        if m then None
                        else Some (core (shift2 D (sstart ys) (sstart xs)) (slen ys) (slen xs) x y))) idx.
 
+  (* ---------------- the legacy stacking path: parallel_gradient_search + _concatenate_chunks ----------------
+     every source chunk (a crop (y_slice, x_slice) of the source) that is co-located with a target block is searched
+     separately with the Cython kernel on its own data; the results are stacked and reduced with np.nanmax *)
+  Definition omax (u v : option T) : option T :=
+    match u, v with
+    | None, x => x
+    | x, None => x
+    | Some p, Some q => Some (fmax OP p q)
+    end.
+  Definition stack2 (x y : list (list (option T))) : list (list (option T)) := map2 (map2 omax) x y.
+  Definition legacy_contribution (F : fields T) (D : Z -> Z -> T) (dst : Z -> Z -> T * T) (rs cs : pslice) (c : pslice * pslice)
+    : list (list (option T)) :=
+    let '(ys, xs) := c in
+    search (shift_fields F (sstart ys) (sstart xs)) (slen ys - 1) (slen xs - 1)
+           (bil_kern (shift2 D (sstart ys) (sstart xs)) (slen ys - 1) (slen xs - 1))
+           (fun i j => dst (sstart rs + i) (sstart cs + j)) (slen rs) (slen cs).
+  Definition legacy_stack (F : fields T) (D : Z -> Z -> T) (dst : Z -> Z -> T * T) (rs cs : pslice) (crops : list (pslice * pslice))
+    : list (list (option T)) :=
+    fold_right (fun c acc => stack2 (legacy_contribution F D dst rs cs c) acc)
+               (tab (fun _ _ => None) (sstart rs) (slen rs) (sstart cs) (slen cs)) crops.
+
   (* ---------------- resample_blocks over a block decomposition of the target ---------------- *)
   Section Blocks.
     Variable Fc : pslice -> pslice -> fields T.                      (* coordinates/gradients of source[y_slice, x_slice] *)
